@@ -26,7 +26,7 @@ type OriginCase struct {
 	Clean bool `json:"clean"`
 }
 
-var originHosts = []string{"example.org", "example.org:8080", "a.b.example.org", "kats.example.org:8080", "sis.example.org", "[::1]:8080", "[2001:db8::1]", "10.0.0.8:8080", "localhost", "localhost:80", "xn--caf-dma.fr", "EXAMPLE.org:443", "i.kiss.example.org"}
+var originHosts = []string{"a", "example.org", "example.org:8080", "a.b.example.org", "kats.example.org:8080", "sis.example.org", "[::1]:8080", "[2001:db8::1]", "10.0.0.8:8080", "localhost", "localhost:80", "xn--caf-dma.fr", "EXAMPLE.org:443", "i.kiss.example.org"}
 
 func splitHostPort(h string) (host, port string) {
 	if i := strings.LastIndex(h, ":"); i > strings.LastIndex(h, "]") {
@@ -48,7 +48,7 @@ func genOriginCase(t *rapid.T) OriginCase {
 		return h + ":" + p
 	}
 	c.HasOrigin = true
-	kinds := []string{"absent", "same", "same-case", "edit", "add-label", "remove-label", "prefix-lookalike", "suffix-lookalike", "port-different", "port-missing-or-added", "userinfo-evil", "userinfo-benign", "unicode-fold", "percent", "null", "junk", "fragment-trick", "other-host", "backslash", "ipv6-variant", "scheme-less"}
+	kinds := []string{"absent", "same", "same-case", "edit", "add-label", "remove-label", "prefix-lookalike", "suffix-lookalike", "port-different", "port-missing-or-added", "userinfo-evil", "userinfo-benign", "unicode-fold", "percent", "null", "junk", "fragment-trick", "other-host", "backslash", "ipv6-variant", "scheme-less", "nonascii-tail"}
 	c.Kind = rapid.SampledFrom(kinds).Draw(t, "kind")
 	switch c.Kind {
 	case "absent":
@@ -123,6 +123,15 @@ func genOriginCase(t *rapid.T) OriginCase {
 		}
 		p := rapid.SampledFrom(idx).Draw(t, "foldpos")
 		c.Origin = scheme + "://" + withPort(string(rs[:p])+repl[rs[p]]+string(rs[p+1:]), port) + tail
+	case "nonascii-tail":
+		// the Origin's host:port is the Host with its last bytes replaced by
+		// (or followed by) one multi-byte character
+		mb := rapid.SampledFrom([]string{"м", "é", "世", "𝄞", "\u212a", "ß"}).Draw(t, "mb")
+		cut := rapid.IntRange(0, 2).Draw(t, "mbcut")
+		if cut > len(c.Host)-1 {
+			cut = len(c.Host) - 1
+		}
+		c.Origin = scheme + "://" + c.Host[:len(c.Host)-cut] + mb + tail
 	case "percent":
 		b := []byte(c.Host)
 		pos := rapid.IntRange(0, len(b)-1).Draw(t, "pctpos")
